@@ -160,6 +160,7 @@ type c16Res struct {
 }
 
 func C16(r *core.Run) {
+	r.CLIOnly = true
 	dir := ""
 	if !r.IsWorker() {
 		dir = core.Scratch("c16")
